@@ -1,5 +1,5 @@
 """What sidecar contract files import."""
-from .target import Target, Clause, spec, inline, implies
+from .target import Target, Clause, spec, inline, implies, now
 from .symex import (Sym, Opt, Obj, SList, SDict, ExcVal, Model, Opaque, Unsupported, PyRaise, PathEnd, truth, lift,
                     eq_values, ite_value, is_sym, kind_of, mk_str)
 import z3
